@@ -812,6 +812,21 @@ fn funcs(r: &mut Runner, t: bool) {
     }
 }
 
+/// Regimes of the default logic far above the linear-solving sizes: the expansion factor changes at 5, 10 and
+/// 20 million keys, sharding resumes above 2 x 10 million keys, the default peeler changes with the number of
+/// shards. One build per size (a 45-million-key build takes 5 s and 2 GB).
+fn very_large(r: &mut Runner, t: bool) {
+    let d = Cfg::default();
+    let sizes: &[usize] = if t { &[5_000_000, 5_000_001, 10_000_000, 10_000_001, 20_000_000, 20_000_001, 45_000_000, 85_000_000] } else { &[10_000_001] };
+    for &n in sizes {
+        func_case!(r, "usize,Box<[u8]>,[u64;2],FuseLge3Shards", n, &d, keys = usize, W = u8, D = Box<[u8]>, S = [u64; 2], E = FuseLge3Shards);
+        if t && n <= 20_000_001 {
+            func_case!(r, "usize,BitFieldVec<usize>,[u64;2],FuseLge3FullSigs", n, &d, keys = usize, W = usize, D = BitFieldVec<usize>, S = [u64; 2], E = FuseLge3FullSigs);
+            func_case!(r, "usize,Box<[u8]>,[u64;2],FuseLge3NoShards", n, &d, keys = usize, W = u8, D = Box<[u8]>, S = [u64; 2], E = FuseLge3NoShards);
+        }
+    }
+}
+
 fn filters(r: &mut Runner, t: bool) {
     let d = Cfg::default();
     let nmax = if t { 1500 } else { 200 };
@@ -884,6 +899,7 @@ fn main() {
         funcs(&mut r, t);
         seed_sweep(&mut r, false, t);
         crafted_failures(&mut r, false, t);
+        very_large(&mut r, t);
     } else {
         crafted_failures(&mut r, true, t);
         filters(&mut r, t);
